@@ -1943,6 +1943,9 @@ fn build_avcc_box(avc_config: &AvcConfig) -> Vec<u8> {
     payload.push(1);
     payload.extend_from_slice(&(avc_config.pps.len() as u16).to_be_bytes());
     payload.extend_from_slice(&avc_config.pps);
+    if let Some(fields) = crate::codec::h264::avcc_high_profile_fields(&avc_config.sps) {
+        payload.extend_from_slice(&fields);
+    }
     build_box(b"avcC", &payload)
 }
 
